@@ -74,7 +74,7 @@ func (p *PreprocReader) Scan() bool {
 	}
 
 	for p.scanner.Scan() {
-		line := p.scanner.Bytes()
+		line := bytes.TrimLeft(p.scanner.Bytes(), " ") // the parser tolerates indentation, see parse()
 		if isIgnored(line) {
 			continue
 		}
